@@ -1,6 +1,8 @@
 """C20 - diffLines from the shipped include library reconstructs both inputs; every shipped include is lint-clean."""
 
 import contextlib
+import datetime
+import enum
 import hashlib
 import io
 import itertools
@@ -8,6 +10,9 @@ import json
 import functools
 import multiprocessing
 import os
+import re
+import subprocess
+import sys
 import time
 import unicodedata
 
@@ -57,6 +62,11 @@ ASSUMPTIONS = [
     'driver and run with the oracle only)',
     'the result of diffLines does not depend on the script that includes the library and calls it beyond GOK (theorem: any state, any heap, '
     'any configuration over hostDiff); the diff-hosts stream runs the real interpreter on a family of caller scripts',
+    'host configuration is outside the Lean model (no host objects, no globals beyond GOK, no histories): the diff-globals / diff-history / '
+    'diff-boundary / diff-prior-use streams check it on the implementation only (reconstruction oracle; the model answer for the same lines is '
+    'compared as well). Not generated: globals that rebind the library functions diff.bare calls or the names it owns at top level '
+    '(diffSentinel, diffTypes, diffRegexLineSplit, diffLines), and faults inside the library\'s own top-level code (an include cut off by the '
+    'statement limit leaves diffSentinel set and the rest undefined: reported, not part of the stream)',
     'Gen/Includes records what parse_script / validate_script / lint_script of the working tree report for each include/*.bare; the '
     'decided theorem is about that table (regenerated on every run), not about a Lean model of the linter',
 ]
@@ -877,6 +887,1011 @@ def stream_hosts(ctx, runner):
     st.exhaustive = False
 
 
+
+# ---------------------------------------------------------------------------------------------------------------------
+# HOST BOUNDARY: globals that collide with names used inside the library, fault-then-continue histories, host values
+# ---------------------------------------------------------------------------------------------------------------------
+# The property is stated for "any two texts or line arrays" - whatever ELSE the embedding application keeps in the globals it runs
+# its scripts with, whatever happened earlier with the same options / globals, and however the host reaches the function.  BareScript
+# looks a variable up in the function's locals first and then in the GLOBALS: a name the library reads before (or without) assigning
+# it on the path taken reads whatever the host - or an earlier script that shared the globals (CLI multi-script mode) - left there.
+
+IN_L, IN_R = 'hostInL', 'hostInR'          # the globals that carry the two inputs (names the library does not use)
+SCRIPT_FULL_G = 'include <diff.bare>\nreturn diffLines(%s, %s)' % (IN_L, IN_R)
+SCRIPT_CALL_G = 'return diffLines(%s, %s)' % (IN_L, IN_R)
+EXPR_CALL_G = 'diffLines(%s, %s)' % (IN_L, IN_R)
+
+IDENT_RE = re.compile(r'^[A-Za-z_][A-Za-z0-9_]*$')
+KEYWORDS = ('null', 'true', 'false', 'if')
+# spellings of literals of other languages: ordinary (normally undefined) variables for BareScript, so a host global of that name is read
+SPELLED = ('False', 'True', 'None', 'undefined')
+# used when the shipped file cannot be parsed (the includes stream reports that)
+FALLBACK_NAMES = LIB_LOCALS + ('left', 'right', 'False')
+
+
+def _walk_expr(expr, acc):
+    key = next(iter(expr))
+    val = expr[key]
+    if key == 'variable':
+        acc['read'].add(val)
+    elif key == 'string':
+        if IDENT_RE.match(val):
+            acc['literal'].add(val)
+    elif key == 'function':
+        acc['called'].add(val['name'])
+        for arg in val.get('args') or ():
+            _walk_expr(arg, acc)
+    elif key == 'binary':
+        _walk_expr(val['left'], acc)
+        _walk_expr(val['right'], acc)
+    elif key == 'unary':
+        _walk_expr(val['expr'], acc)
+    elif key == 'group':
+        _walk_expr(val, acc)
+
+
+def _walk_statements(statements, acc, depth):
+    for stmt in statements:
+        key = next(iter(stmt))
+        val = stmt[key]
+        if key == 'expr':
+            if val.get('name') is not None:
+                acc['top' if depth == 0 else 'local'].add(val['name'])
+            _walk_expr(val['expr'], acc)
+        elif key in ('jump', 'return'):
+            if 'expr' in val:
+                _walk_expr(val['expr'], acc)
+        elif key == 'function':
+            acc['top'].add(val['name'])                 # a function statement binds a global, wherever it stands
+            acc['local'].update(val.get('args') or ())
+            _walk_statements(val['statements'], acc, depth + 1)
+
+
+@functools.lru_cache(maxsize=None)
+def library_names():
+    """The names the WORKING TREE's diff.bare uses (semantic: from the model parse_script returns for the shipped file):
+    -> (collidable, free, literal-only).  collidable = variables read, locals / parameters / generated loop variables assigned inside functions and
+    identifier-like string literals (systemGlobalGet('x') idiom), plus SPELLED, minus the names the library owns (what it assigns or
+    defines at top level) and the functions it calls (a host that rebinds those replaces the library - outside the property);
+    free = the collidable names the library never assigns (reading them IS reading a global: no model for a polluted run);
+    literal-only = names that occur as string literals only."""
+    m = fw.impl()
+    acc = {k: set() for k in ('read', 'literal', 'called', 'top', 'local')}
+    try:
+        text = m['bare']._fetch_include({'url': m['bare']._FETCH_INCLUDE_PREFIX + 'diff.bare'})  # pylint: disable=protected-access
+        _walk_statements(m['parser'].parse_script(text)['statements'], acc, 0)
+    except Exception:  # pylint: disable=broad-except
+        acc['read'].update(FALLBACK_NAMES)
+    reserved = acc['top'] | acc['called'] | set(KEYWORDS) | {IN_L, IN_R}
+    names = (acc['read'] | acc['local'] | acc['literal'] | set(SPELLED)) - reserved
+    free = {n for n in names if n in acc['read'] and n not in acc['local']} | (set(SPELLED) & names)
+    return tuple(sorted(names)), frozenset(free), frozenset(names - acc['read'] - acc['local'] - set(SPELLED))
+
+
+class HostStr(str):
+    """a host's own string class (e.g. a markup-safe or lazily translated string)"""
+
+
+class HostInt(int):
+    pass
+
+
+class HostFloat(float):
+    pass
+
+
+class HostList(list):
+    pass
+
+
+class HostDict(dict):
+    pass
+
+
+def _host_fn(args, options):            # a host function with the library calling convention
+    return ['h']
+
+
+def _host_raiser(args, options):
+    raise RuntimeError('host function failed')
+
+
+# name -> (host value builder, the same value as a BareScript expression or None when only a host can create it)
+VALUES = {
+    'array': (lambda: ['zz', 'zy'], "arrayNew('zz', 'zy')"),
+    'string': (lambda: 'junk', "'junk'"),
+    'number': (lambda: 7, '7'),
+    'float': (lambda: 2.5, '2.5'),
+    'negative': (lambda: -1, '-1'),
+    'true': (lambda: True, 'true'),
+    'object': (lambda: {'type': 'Add', 'lines': ['q']}, "objectNew('type', 'Add', 'lines', arrayNew('q'))"),
+    'function': (lambda: _host_fn, 'arrayNew'),
+    'raiser': (lambda: _host_raiser, None),
+    'datetime': (lambda: datetime.datetime(2020, 1, 2, 3, 4, 5), 'datetimeNew(2020, 1, 2, 3, 4, 5)'),
+    'regex': (lambda: re.compile('x'), "regexNew('x')"),
+    'strsub': (lambda: HostStr('junk'), None),
+    'intsub': (lambda: HostInt(3), None),
+    'listsub': (lambda: HostList(['zz']), None),
+    'dictsub': (lambda: HostDict(type='Remove', lines=['q']), None),
+    'zero': (lambda: 0, '0'),
+    'empty-string': (lambda: '', "''"),
+    'empty-array': (lambda: [], 'arrayNew()'),
+    'empty-object': (lambda: {}, 'objectNew()'),
+    'null': (lambda: None, 'null'),
+    'false': (lambda: False, 'false'),
+}
+FALSY_VALUES = ('zero', 'empty-string', 'empty-array', 'null', 'false')
+WHENS = ('host', 'prior-script', 'after-include', 'in-script')
+SCRIPTED_WHENS = ('prior-script', 'in-script')
+
+# one probe per way through the function: same / different last line, same / different first line, one side empty, nothing in common,
+# equal inputs, texts and chunked arrays
+GLOBAL_PROBES = [
+    (['a', 'b', 'c'], ['a', 'x', 'c']), (['a', 'b', 'c'], ['a', 'b', 'd']), ('a\nb', 'a\nb\n'), (['a', 'b'], []), ([], ['a']), ([], []),
+    ('same\ntext', 'same\ntext'), ('old', 'new'), (['a\nb', 'c'], 'a\nc'), (['b', 'a', 'a'], ['a', 'b', 'a']), (['x', 'a'], ['a']),
+    (['a'], ['a', 'x']), ('x\r\na\r\nb', 'a\nb\ny'), (['k'], ['k']),
+]
+
+
+def _set_lines(names, vname):
+    expr = VALUES[vname][1]
+    return ["systemGlobalSet('%s', %s)" % (n, expr) for n in names]
+
+
+def _pair_key(left, right):
+    return json.dumps([left, right], ensure_ascii=True)
+
+
+class HostRunner(Runner):
+    """the real interpreter with host-side configuration around the call"""
+
+    def __init__(self):
+        super().__init__()
+        self.parsed = {}
+
+    def script(self, text):
+        if text not in self.parsed:
+            self.parsed[text] = self.parser.parse_script(text)
+        return self.parsed[text]
+
+    def polluted(self, left, right, names, vname, when):
+        """one isolated case: fresh globals in which `names` hold the value `vname`, put there at the moment `when`"""
+        if self.overruns >= MAX_OVERRUNS:
+            return SKIPPED
+        build = VALUES[vname][0]
+        limit = statement_budget(left, right) + 100 + 2 * len(names)
+        glob = {IN_L: clone(left), IN_R: clone(right)}
+        try:
+            if when == 'host':                  # host-created globals
+                for n in names:
+                    glob[n] = build()
+                res = self.runtime.execute_script(self.script(SCRIPT_FULL_G), self._options(glob, limit))
+            elif when == 'prior-script':        # an earlier script that ran with the same globals (new options each, as the CLI does)
+                self.runtime.execute_script(self.script('\n'.join(_set_lines(names, vname))), self._options(glob, limit))
+                res = self.runtime.execute_script(self.script(SCRIPT_FULL_G), self._options(glob, limit))
+            elif when == 'after-include':       # the library is loaded, then the host sets its globals, then a script calls
+                self.runtime.execute_script(self.script(SCRIPT_INCLUDE), self._options(glob, limit))
+                for n in names:
+                    glob[n] = build()
+                res = self.runtime.execute_script(self.script(SCRIPT_CALL_G), self._options(glob, limit))
+            elif when == 'in-script':           # the calling script itself owns globals of these names
+                text = '\n'.join([SCRIPT_INCLUDE] + _set_lines(names, vname) + [SCRIPT_CALL_G])
+                res = self.runtime.execute_script(self.script(text), self._options(glob, limit))
+            else:
+                raise ValueError(when)
+            return canon(res)
+        except Exception as exc:  # pylint: disable=broad-except
+            return self._error(exc)
+
+    def polluted_sequence(self, calls, names):
+        """one set of globals (library included once while `names` hold the first value), then the calls [(value name, left, right)] one
+        after the other; before every call the host puts its value of that call under `names`. -> one result per call"""
+        glob = {n: VALUES[calls[0][0]][0]() for n in names} if calls else {}
+        out = []
+        try:
+            self.runtime.execute_script(self.script(SCRIPT_INCLUDE), self._options(glob, 100000))
+        except Exception as exc:  # pylint: disable=broad-except
+            return [self._error(exc)] * len(calls)
+        call = self.script(SCRIPT_CALL_G)
+        for vname, left, right in calls:
+            if self.overruns >= MAX_OVERRUNS:
+                out.append(SKIPPED)
+                continue
+            build = VALUES[vname][0]
+            for n in names:
+                glob[n] = build()
+            glob[IN_L], glob[IN_R] = clone(left), clone(right)
+            try:
+                out.append(canon(self.runtime.execute_script(call, self._options(glob, statement_budget(left, right)))))
+            except Exception as exc:  # pylint: disable=broad-except
+                out.append(self._error(exc))
+        return out
+
+    def cli(self, left, right, names, vname):
+        """the real command line, multi-script mode (`bare -c ... -c ... -c ...`: one globals object for all scripts), in a process of
+        its own with a timeout (the CLI has no statement limit option)"""
+        def lit(x):
+            return "jsonParse('" + json.dumps(x, ensure_ascii=True).replace('\\', '\\\\').replace("'", "\\'") + "')"
+        argv = ['-c', '%s = %s' % (IN_L, lit(left)), '-c', '%s = %s' % (IN_R, lit(right))]
+        for ln in _set_lines(names, vname):
+            argv += ['-c', ln]
+        argv += ['-c', SCRIPT_INCLUDE, '-c', "systemLog('RESULT ' + jsonStringify(%s))" % EXPR_CALL_G]
+        src = 'import sys\nsys.path.insert(0, sys.argv.pop(1))\nfrom bare_script.bare import main\nmain(sys.argv[1:])\n'
+        try:
+            res = subprocess.run([sys.executable, '-c', src, fw.REPO_SRC] + argv, capture_output=True, text=True, timeout=60, check=False)
+        except subprocess.TimeoutExpired:
+            return {'error': 'bare CLI did not finish in 60 s'}
+        for ln in res.stdout.splitlines():
+            if ln.startswith('RESULT '):
+                try:
+                    return canon(json.loads(ln[len('RESULT '):]))
+                except ValueError:
+                    break
+        return {'error': 'bare CLI exit %s: %s' % (res.returncode, (res.stdout + res.stderr)[-200:])}
+
+
+def report(ctx, stream, inp, left, right, impl, model):
+    """model comparison (when there is a model for this case) + the property oracle on one implementation result"""
+    if impl is SKIPPED:
+        return False
+    if model is not None:
+        ctx.compare(stream, inp, impl, model)
+    bad = oracle(left, right, impl)
+    if bad is not None:
+        ctx.witness(bad[0], inp, bad[1], bad[2])
+    return bad is not None
+
+
+def models_for(ctx, pairs):
+    """-> {pair key: model answer} (empty without a driver)"""
+    if ctx.driver is None:
+        return {}
+    uniq = {}
+    for left, right in pairs:
+        uniq.setdefault(_pair_key(left, right), (left, right))
+    resps = ctx.driver.batch([{'op': 'diff', 'left': l, 'right': r} for l, r in uniq.values()])
+    return {k: model_out(x) for k, x in zip(uniq, resps)}
+
+
+def small_pair(rng):
+    """a short random pair of any input shape (line arrays, texts, chunked arrays, mixed)"""
+    pool = rng.choice(LINE_POOLS[:5])
+    left, right = edit_pair(rng, pool, rng.choice([2, 4, 8]))
+    if rng.random() < 0.3:
+        right = right[:-1] + [rng.choice(pool)] if right else [rng.choice(pool)]          # make the last lines differ more often
+    shape = rng.randint(0, 3)
+    if shape == 0:
+        return left, right
+    if shape == 1:
+        return as_text(rng, left or ['']), as_text(rng, right or [''])
+    if shape == 2:
+        return as_chunks(rng, left), as_chunks(rng, right)
+    return as_text(rng, left or ['']), as_chunks(rng, right)
+
+
+def stream_globals(ctx, runner):
+    names, free, literal_only = library_names()
+    everything = [n for n in names if n not in free]
+    st = ctx.stream('diff-globals', 'HOST GLOBALS that collide with names used inside the library: the %d names the working tree\'s diff.bare uses '
+                    '(taken from its parsed model: variables read, locals / parameters / generated loop variables of its functions, identifier-like '
+                    'string literals; plus the spellings False/True/None/undefined; minus the names the library owns at top level and the library '
+                    'functions it calls - a host that rebinds those replaces the library, outside the property), one at a time and all at once, '
+                    'bound to each of %d values (truthy and falsy, every BareScript type, host callables - one that raises -, subclasses of '
+                    'str/int/list/dict), put there by the host before the run, by an earlier script sharing the globals (CLI multi-script mode; a '
+                    'few cases through the real `bare -c ... -c ...` in a process of its own), by the host after the library was loaded, or by the '
+                    'calling script; every combination on probes taking every way through the function (same / different last and first lines, an '
+                    'empty side, equal inputs, texts, chunks) and random pairs: (a) one set of globals per name reused for all values and probes (the host rebinding its names between calls), (b) isolated runs. '
+                    'Reconstruction oracle on every result; the model (it has no globals: host-only configuration) is compared wherever the '
+                    'program theorem applies, i.e. for every name the library assigns itself (not for the names it only reads, e.g. `False`); '
+                    'non-trivial = the line lists differ' % (len(names), len(VALUES)))
+    rng = ctx.rng('diff-globals')
+    vnames = list(VALUES)
+    groups = [[n] for n in names] + [everything, list(names)]
+    # ---- plan
+    seq_work, iso_work, cli_work = [], [], []
+    for gi, group in enumerate(groups):
+        calls = []
+        for vi, vname in enumerate(vnames):
+            if ctx.quick and len(group) == 1 and group[0] in literal_only and (gi + vi) % 3:
+                continue                    # quick tier: a name that only occurs as a string literal takes every third value
+            probes = GLOBAL_PROBES
+            if ctx.quick and len(group) == 1 and vname in FALSY_VALUES:        # quick tier: a falsy value (what an unset name reads as, too) on every other probe
+                probes = GLOBAL_PROBES[(gi + vi) % 2::2]
+            calls += [(vname, l, r) for l, r in probes + [small_pair(rng) for _ in range(ctx.scale(0, 6))]]
+            scripted = VALUES[vname][1] is not None
+            whens = [w for w in WHENS if scripted or w not in SCRIPTED_WHENS]
+            if ctx.quick and len(group) == 1:
+                # single names: one moment per (name, value), rotating; the all-at-once groups take every moment
+                whens = [whens[(gi + vi) % len(whens)]]
+                picks = [GLOBAL_PROBES[(gi * 5 + vi * 3) % len(GLOBAL_PROBES)] if (gi + vi) % 2 else small_pair(rng)]
+            elif ctx.quick:
+                picks = [GLOBAL_PROBES[(vi * 5 + k * 3) % len(GLOBAL_PROBES)] for k in range(4)] + [small_pair(rng)]
+            else:
+                picks = GLOBAL_PROBES + [small_pair(rng) for _ in range(2)]
+            for when in whens:
+                for left, right in picks:
+                    iso_work.append((group, vname, when, left, right))
+        seq_work.append((group, calls))
+    scripted_values = [v for v in vnames if VALUES[v][1] is not None]
+    for k in range(ctx.scale(6, 200)):
+        group = groups[-2] if k % 2 == 0 else rng.choice(groups)
+        left, right = GLOBAL_PROBES[k % len(GLOBAL_PROBES)] if k % 3 else small_pair(rng)
+        cli_work.append((group, scripted_values[k % len(scripted_values)], left, right))
+    models = models_for(ctx, [(l, r) for _, calls in seq_work for _, l, r in calls] + [(l, r) for _, _, _, l, r in iso_work] +
+                        [(l, r) for _, _, l, r in cli_work])
+
+    def model_of(group, left, right):
+        return None if any(n in free for n in group) else models.get(_pair_key(left, right))
+
+    def label(group):
+        return group[0] if len(group) == 1 else 'ALL' if group is groups[-1] else 'ALL-ASSIGNED'
+
+    def record(group, vname, when, left, right, impl):
+        if impl is SKIPPED:
+            st.case([label(group), vname, when, left, right], nontrivial=False, tags=['skipped'])
+        else:
+            st.case([label(group), vname, when, left, right], nontrivial=ref_lines(left) != ref_lines(right),
+                    tags=['when=' + when, 'value=' + vname, 'names=%s' % ('1' if len(group) == 1 else 'all'), blocks_tag(impl)])
+
+    # ---- (a) one set of globals per name (group) for all values and probes
+    for group, calls in seq_work:
+        results = runner.polluted_sequence(calls, group)
+        for idx, ((vname, left, right), impl) in enumerate(zip(calls, results)):
+            record(group, vname, 'reused', left, right, impl)
+            if impl is SKIPPED:
+                continue
+            model = model_of(group, left, right)
+            if model is not None:
+                ctx.compare('diff-globals', {'left': left, 'right': right, 'mode': 'globals-sequence', 'names': group, 'value': vname}, impl, model)
+            bad = oracle(left, right, impl)
+            if bad is not None:
+                # report the smallest history that still fails: the case alone if it does, else the (last 60) calls so far
+                for when in ('after-include', 'host'):
+                    alone = HostRunner().polluted(left, right, group, vname, when)       # (a runner with an overrun count of its own)
+                    if alone is not SKIPPED and oracle(left, right, alone) is not None:
+                        report(ctx, 'diff-globals', {'left': left, 'right': right, 'mode': 'globals', 'names': group, 'value': vname,
+                                                     'when': when}, left, right, alone, None)
+                        break
+                else:
+                    ctx.witness(bad[0], {'left': left, 'right': right, 'mode': 'globals-sequence', 'names': group, 'value': vname,
+                                         'calls': [list(c) for c in calls[max(0, idx - 59):idx + 1]]}, bad[1], bad[2])
+    # ---- (b) isolated runs, every moment
+    for group, vname, when, left, right in iso_work:
+        impl = runner.polluted(left, right, group, vname, when)
+        record(group, vname, when, left, right, impl)
+        report(ctx, 'diff-globals', {'left': left, 'right': right, 'mode': 'globals', 'names': group, 'value': vname, 'when': when},
+               left, right, impl, model_of(group, left, right))
+    # ---- (c) the real command line
+    for group, vname, left, right in cli_work:
+        # the CLI has no statement limit: only cases whose in-process twin stayed within its budget
+        twin = runner.polluted(left, right, group, vname, 'prior-script')
+        if twin is SKIPPED or (isinstance(twin, dict) and 'Exceeded maximum script statements' in twin.get('error', '')):
+            record(group, vname, 'cli', left, right, SKIPPED)
+            continue
+        impl = runner.cli(left, right, group, vname)
+        record(group, vname, 'cli', left, right, impl)
+        report(ctx, 'diff-globals', {'left': left, 'right': right, 'mode': 'globals', 'names': group, 'value': vname, 'when': 'cli'},
+               left, right, impl, model_of(group, left, right))
+    st.exhaustive = False
+
+
+
+# ---- fault-then-continue histories ----------------------------------------------------------------------------------------------
+
+BAD_ARGS = {
+    'number': lambda: [5, 'a'], 'null': lambda: [None, None], 'object': lambda: [{'type': 'Add'}, 'a'], 'numbers': lambda: [[1, 2], ['a']],
+    'mixed': lambda: [['a', None, 3], ['a']], 'missing': lambda: [['a', 'b']], 'none': lambda: [], 'boolean': lambda: [True, 'a\nb'],
+    'nested': lambda: [[['a']], ['a']], 'function': lambda: [_host_raiser, 'a'],
+}
+BROKEN_SCRIPTS = (
+    'hostD = diffLines(hostInL, hostInR)\nhostNoSuchFunction(hostD)',                       # runtime error after a call
+    "hostD = diffLines(hostInL, hostInR)\narrayPush(hostD, 'junk')\narrayPush(objectGet(arrayGet(hostD, 0), 'lines'), 'junk')",   # result modified
+    'function hostLoop():\n    while true:\n        hostD = diffLines(hostInL, hostInR)\n    endwhile\nendfunction\nhostLoop()',     # budget runs out in a caller
+    "include 'hostMissing.bare'",                                                           # an include that fails
+    'hostD = diffLines(hostInR, hostInL)\nreturn arrayGet(hostD, 99)',
+)
+CALL_VIAS = ('script', 'eval', 'eval-nobuiltins', 'eval-locals', 'direct', 'function-arg')
+
+
+def history_steps(rng):
+    """A history over ONE options object and ONE globals object (what a host that keeps its interpreter configuration around does):
+    the library is loaded, then good calls interleaved with faults - calls with arguments that are no texts / line arrays, calls and
+    caller scripts cut off by the statement limit, scripts that fail after a call or modify a result, failing includes, a fetcher that
+    fails once, the library included again - and every good call is checked.  Faults INSIDE the library's own top-level code are not
+    generated (see the final report: an include cut off by the statement limit leaves its sentinel set)."""
+    steps = []
+    if rng.random() < 0.25:
+        steps.append({'op': 'call', 'via': 'script', 'left': ['a'], 'right': ['b'], 'expect': 'fault'})        # before the library is loaded
+    if rng.random() < 0.25:
+        steps.append({'op': 'include', 'fetch': rng.choice(['raises', 'null', 'garbage'])})                    # the fetcher fails once
+    steps.append({'op': 'include'})
+    for _ in range(rng.randint(3, 8)):
+        k = rng.randint(0, 9)
+        if k <= 3:
+            left, right = small_pair(rng)
+            steps.append({'op': 'call', 'via': rng.choice(CALL_VIAS), 'left': left, 'right': right})
+        elif k == 4:
+            steps.append({'op': 'bad-call', 'args': rng.choice(sorted(BAD_ARGS)), 'via': rng.choice(['script', 'direct'])})
+        elif k == 5:
+            left, right = small_pair(rng)
+            steps.append({'op': 'call', 'via': 'script', 'left': left, 'right': right, 'limit': rng.choice([1, 2, 3, 5, 8, 13, 21, 34, 55])})
+        elif k == 6:
+            left, right = small_pair(rng)
+            steps.append({'op': 'script', 'which': rng.randrange(len(BROKEN_SCRIPTS)), 'left': left, 'right': right})
+        elif k == 7:
+            steps.append({'op': 'include'})
+        elif k == 8:
+            steps.append({'op': 'junk-options', 'key': rng.choice(['statementCount', 'debug', 'logFn', 'urlFn'])})
+        else:
+            left, right = small_pair(rng)
+            steps.append({'op': 'call', 'via': 'script', 'left': left, 'right': left if rng.random() < 0.5 else right, 'alias': True})
+    left, right = small_pair(rng)
+    steps.append({'op': 'call', 'via': rng.choice(CALL_VIAS), 'left': left, 'right': right})
+    return steps
+
+
+def run_history(runner, steps):
+    """-> one entry per step: the canonical result of a checked call (limit-free `call` steps after the library is loaded), else None"""
+    rt, parse = runner.runtime, runner.script
+    glob = {}
+    options = runner._options(glob, 100000)  # pylint: disable=protected-access
+    fetch_ok = options['fetchFn']
+    out = []
+    for step in steps:
+        res = None
+        op = step['op']
+        try:
+            if op == 'include':
+                how = step.get('fetch')
+                if how == 'raises':
+                    options['fetchFn'] = _host_raiser
+                elif how == 'null':
+                    options['fetchFn'] = lambda request: None
+                elif how == 'garbage':
+                    options['fetchFn'] = lambda request: 'function broken(:\n'
+                options['maxStatements'] = 100000
+                try:
+                    rt.execute_script(parse(SCRIPT_INCLUDE), options)
+                finally:
+                    options['fetchFn'] = fetch_ok
+            elif op == 'call':
+                left, right = step['left'], step['right']
+                glob[IN_L] = clone(left)
+                glob[IN_R] = glob[IN_L] if step.get('alias') and left == right else clone(right)
+                budget = statement_budget(left, right)
+                options['maxStatements'] = step.get('limit', budget)
+                via = step['via']
+                if via == 'script':
+                    got = rt.execute_script(parse(SCRIPT_CALL_G), options)
+                elif via == 'function-arg':         # diffLines handed to a library function (systemPartial) and called through what it returns
+                    got = rt.execute_script(parse('hostBound = systemPartial(diffLines, %s)\nreturn hostBound(%s)' % (IN_L, IN_R)), options)
+                else:
+                    # no execute_script: the statement counter of the previous run goes on counting
+                    count = options.get('statementCount')
+                    if not isinstance(count, (int, float)) or isinstance(count, bool):
+                        count = options['statementCount'] = 0
+                    options['maxStatements'] = count + budget
+                    if via == 'direct':
+                        got = glob['diffLines']([glob[IN_L], glob[IN_R]], options)
+                    elif via == 'eval-locals':
+                        got = rt.evaluate_expression(runner.parser.parse_expression('diffLines(a, b)'), options, {'a': glob[IN_L], 'b': glob[IN_R]})
+                    else:
+                        got = rt.evaluate_expression(runner.parser.parse_expression(EXPR_CALL_G), options, None, via == 'eval')
+                if 'limit' not in step:
+                    res = canon(got)
+            elif op == 'bad-call':
+                args = BAD_ARGS[step['args']]()
+                options['maxStatements'] = 2000
+                if step['via'] == 'direct':
+                    options['statementCount'] = 0
+                    glob['diffLines'](args, options)
+                else:
+                    glob['hostBad'] = args
+                    rt.execute_script(parse('return diffLines(%s)' % ', '.join('arrayGet(hostBad, %d)' % i for i in range(len(args)))), options)
+            elif op == 'script':
+                glob[IN_L], glob[IN_R] = clone(step['left']), clone(step['right'])
+                options['maxStatements'] = 3 * statement_budget(step['left'], step['right'])
+                rt.execute_script(parse(BROKEN_SCRIPTS[step['which']]), options)
+            elif op == 'junk-options':
+                options[step['key']] = {'statementCount': 10 ** 12, 'debug': True, 'logFn': [].append, 'urlFn': _host_raiser}[step['key']]
+        except Exception as exc:  # pylint: disable=broad-except
+            if op == 'call' and 'limit' not in step:
+                res = {'error': type(exc).__name__ + ': ' + str(exc)[:120]}
+        out.append(res)
+    return out
+
+
+def history_checked(steps):
+    """indexes of the steps whose result the property speaks about: good calls made after the library was loaded"""
+    loaded = False
+    idx = []
+    for i, step in enumerate(steps):
+        if step['op'] == 'include' and 'fetch' not in step:
+            loaded = True
+        elif step['op'] == 'call' and loaded and 'limit' not in step and step.get('expect') != 'fault':
+            idx.append(i)
+    return idx
+
+
+def stream_history(ctx, runner):
+    st = ctx.stream('diff-history', 'FAULT-THEN-CONTINUE histories on ONE re-used options object and ONE globals object: the library loaded (also '
+                    'after a fetcher that raised / returned null / returned text that does not parse, and loaded again later), then good calls '
+                    'interleaved with calls whose arguments are no texts / line arrays (numbers, null, objects, arrays of non-strings, missing '
+                    'arguments, a host function), calls and caller scripts cut off by the statement limit, scripts that fail after a call or '
+                    'modify the result of one, failing includes, junk left in the options (a huge statementCount, debug with a logFn, a urlFn that raises); '
+                    'good calls are made by a script, by evaluate_expression (builtins on / off, inputs as globals or as locals), by calling '
+                    'the function value directly as a host does, as a callback of a library function, and with the same array object on both '
+                    'sides; every good call: model + reconstruction oracle (a limited call that happens to finish is not checked: its limit is '
+                    'the fault). Faults inside the library\'s own top-level code are not generated. Non-trivial = the history holds a fault before the call')
+    rng = ctx.rng('diff-history')
+    plans = [history_steps(rng) for _ in range(ctx.scale(200, 3000))]
+    models = models_for(ctx, [(s['left'], s['right']) for steps in plans for s in steps if s['op'] == 'call'])
+    for steps in plans:
+        results = run_history(runner, steps)
+        fault_seen = False
+        checked = set(history_checked(steps))
+        for i, (step, impl) in enumerate(zip(steps, results)):
+            if i in checked:
+                left, right = step['left'], step['right']
+                inp = {'left': left, 'right': right, 'mode': 'history', 'steps': steps[:i + 1]}
+                st.case(steps[:i + 1], nontrivial=fault_seen, tags=['via=' + step['via'], 'after-fault' if fault_seen else 'no-fault-yet', blocks_tag(impl)])
+                report(ctx, 'diff-history', inp, left, right, impl, models.get(_pair_key(left, right)))
+            elif step['op'] != 'include' or 'fetch' in step:
+                fault_seen = True
+    st.exhaustive = False
+
+
+
+# ---- the caller has used the library on the very same values before (and edits what it got) ---------------------------------
+
+# "diffLines reconstructs both inputs" holds whatever the caller did BEFORE in the same run / process: in particular having passed the
+# very same texts / arrays to the library functions diff.bare itself is made of, and having edited the values those returned in place
+# (a result handed out twice - a cache - would be edited under the library's feet), having edited the blocks of an earlier result,
+# or having edited the arrays it passes again.
+
+LF_EXPR = 'stringFromCharCode(10)'
+# script level: how a caller splits ONE string into lines / copies ONE array, and how it then edits the array it got, in place
+PRIOR_SPLITS = {
+    'same-regex': "regexSplit(regexNew(stringFromCharCode(13) + '?' + stringFromCharCode(10)), s)",      # an equal, separately made regex
+    'library-regex': 'regexSplit(diffRegexLineSplit, s)',                                                # the library's own regex object
+    'lf-regex': 'regexSplit(regexNew(%s), s)' % LF_EXPR,
+    'stringSplit': 'stringSplit(s, %s)' % LF_EXPR,
+    'json': 'jsonParse(jsonStringify(regexSplit(diffRegexLineSplit, s)))',
+}
+PRIOR_COPIES = {
+    'arrayCopy': 'arrayCopy(a)', 'arraySlice': 'arraySlice(a, 0)', 'arrayExtend': 'arrayExtend(arrayNew(), a)',
+    'slice-ends': 'arraySlice(a, 0, arrayLength(a))', 'object': "objectGet(objectCopy(objectNew('lines', arrayCopy(a))), 'lines')",
+}
+PRIOR_EDITS = {
+    'pop': ['arrayPop(x)'], 'shift': ['arrayShift(x)'], 'push': ["arrayPush(x, 'junk')"], 'sort': ['arraySort(x)'],
+    'set': ["arraySet(x, 0, 'junk')"], 'delete': ['arrayDelete(x, 0)'], 'extend': ["arrayExtend(x, arrayNew('junk', ''))"],
+    'pop-if-empty-last': ["if arrayLength(x) && arrayGet(x, arrayLength(x) - 1) == '':", '    arrayPop(x)', 'endif'],
+    'clear': ['while arrayLength(x):', '    arrayPop(x)', 'endwhile'],
+}
+
+
+def prior_use_script(split, copy, edit):
+    """A caller that (1) loads the library, (2) splits every text it is about to compare / copies every array, editing what it got in
+    place, (3) calls diffLines, (4) edits the blocks of the result, (5) calls diffLines again with the same inputs.
+    -> [copy of the first result taken before it was edited, second result]"""
+    lines = [
+        'include <diff.bare>',
+        'function hostEdit(x):',
+    ] + _ind(PRIOR_EDITS[edit]) + [
+        'endfunction',
+        'function hostUse(v):',
+        "    if systemType(v) == 'array':",
+        '        a = v',
+        '        hostEdit(%s)' % PRIOR_COPIES[copy],
+        '        for s in v:',
+        '            hostEdit(%s)' % PRIOR_SPLITS[split],
+        '        endfor',
+        '        s = arrayJoin(v, %s)' % LF_EXPR,
+        '        hostEdit(%s)' % PRIOR_SPLITS[split],
+        '    else:',
+        '        s = v',
+        '        hostEdit(%s)' % PRIOR_SPLITS[split],
+        '    endif',
+        'endfunction',
+        'hostUse(%s)' % IN_L,
+        'hostUse(%s)' % IN_R,
+        'hostFirst = diffLines(%s, %s)' % (IN_L, IN_R),
+        'hostFirstCopy = jsonParse(jsonStringify(hostFirst))',
+        'for hostBlock in hostFirst:',
+        "    hostEdit(objectGet(hostBlock, 'lines'))",
+        "    objectSet(hostBlock, 'type', 'Add')",
+        'endfor',
+        'hostEdit(hostFirst)',
+        'hostUse(%s)' % IN_R,
+        'hostUse(%s)' % IN_L,
+        'return arrayNew(hostFirstCopy, diffLines(%s, %s))' % (IN_L, IN_R),
+    ]
+    return '\n'.join(lines)
+
+
+PRIOR_DENY = ('system',)                    # functions with effects outside the values they are given (fetch, log, globals)
+HOST_EDITS = ('pop', 'shift', 'push', 'set', 'sort', 'clear', 'extend')
+
+
+def _host_edit(value, how, keep, depth=0):
+    """edit a container the library returned, in place (and the containers inside it); `keep`: ids of the objects not to touch"""
+    if id(value) in keep or depth > 2:
+        return
+    if isinstance(value, dict):
+        for item in list(value.values())[:8]:
+            _host_edit(item, how, keep, depth + 1)
+        value['lines'] = ['junk']
+        value['type'] = 'Junk'
+    elif isinstance(value, list):
+        for item in list(value)[:8]:
+            if isinstance(item, (list, dict)):
+                _host_edit(item, how, keep, depth + 1)
+        try:
+            if how == 'pop' and value:
+                value.pop()
+            elif how == 'shift' and value:
+                del value[0]
+            elif how == 'push':
+                value.append('junk')
+            elif how == 'set' and value:
+                value[0] = 'junk'
+            elif how == 'sort':
+                value.sort(key=str)
+            elif how == 'clear':
+                del value[:]
+            elif how == 'extend':
+                value.extend(['junk', ''])
+        except Exception:  # pylint: disable=broad-except
+            pass
+
+
+def _arg_shapes(value, other, regexes):
+    """argument lists a caller may hand a library function together with the input `value`: -> [(shape name, args)]"""
+    parts = [value] if isinstance(value, str) else list(value[:3])
+    out = [('v', [value]), ('v,w', [value, other]), ('v,lf', [value, '\n']), ('v,0', [value, 0]), ('v,0,1', [value, 0, 1]), ('v,1', [value, 1]),
+           ('key,v', ['lines', value]), ('v,v', [value, value])]
+    for k, part in enumerate(parts):
+        out += [('p%d' % k, [part]), ('p%d,lf' % k, [part, '\n']), ('p%d,0' % k, [part, 0])]
+        for j, rex in enumerate(regexes):
+            out.append(('re%d,p%d' % (j, k), [rex, part]))
+    return out
+
+
+class PriorUse:
+    """the host-level sweep: EVERY library function of the working tree (but the system* ones) is handed the very objects that are then
+    given to diffLines, in every argument shape of _arg_shapes; whatever containers come back are edited in place"""
+
+    def __init__(self, runner):
+        self.runner = runner
+        self.lib = dict(fw.impl()['library'].SCRIPT_FUNCTIONS)
+        self.names = [n for n in sorted(self.lib) if not n.startswith(PRIOR_DENY)]
+        self.productive = None
+
+    def regexes(self, glob, options):
+        out = [glob.get('diffRegexLineSplit'), re.compile('\r?\n'), re.compile('\n'), re.compile('\r?\n', re.MULTILINE)]
+        try:
+            out.append(self.lib['regexNew'](['\r?\n'], options))
+        except Exception:  # pylint: disable=broad-except
+            pass
+        return [x for x in out if x is not None]
+
+    def sweep(self, first, second, glob, options, only=None):
+        """-> the containers the library returned, [(function name, shape name, value)]"""
+        got = []
+        regexes = self.regexes(glob, options)
+        for value, other, side in ((first, second, 'l'), (second, first, 'r')):
+            for shape, args in _arg_shapes(value, other, regexes):
+                cls = _shape_class(shape)
+                for name in self.names:
+                    if only is not None and (name, cls) not in only:
+                        continue
+                    try:
+                        res = self.lib[name](list(args), options)
+                    except Exception:  # pylint: disable=broad-except
+                        continue
+                    if isinstance(res, (list, dict)):
+                        got.append((name, shape, res))
+        return got
+
+    def learn(self):
+        """which (function, shape class) pairs return a container at all - found once on two sample inputs, so that the sweep of every
+        case only makes the calls that can matter"""
+        if self.productive is None:
+            self.productive = set()
+            for first, second in ((['a\nb', 'c', ''], 'a\r\nc\n'), ('a\nb\n', ['a', 'b\nc']), (['a'], ['b', 'a'])):
+                glob = {}
+                options = self.runner._options(glob, 100000)  # pylint: disable=protected-access
+                try:
+                    self.runner.runtime.execute_script(self.runner.script(SCRIPT_INCLUDE), options)
+                except Exception:  # pylint: disable=broad-except
+                    pass
+                for name, shape, _ in self.sweep(clone(first), clone(second), glob, options):
+                    self.productive.add((name, _shape_class(shape)))
+        return self.productive
+
+    def run(self, left, right, how):
+        """-> [(left lines' owner at the time of the call, right ..., canonical result)] for three calls: after the sweep + edits, after
+        the first result was edited, after the input arrays themselves were edited (texts: replaced by longer texts)"""
+        runner = self.runner
+        glob = {}
+        options = runner._options(glob, 100000)  # pylint: disable=protected-access
+        out = []
+        try:
+            runner.runtime.execute_script(runner.script(SCRIPT_INCLUDE), options)
+        except Exception as exc:  # pylint: disable=broad-except
+            return [(left, right, runner._error(exc))]  # pylint: disable=protected-access
+        first, second = clone(left), clone(right)
+        keep = {id(first), id(second)}
+
+        def call():
+            glob[IN_L], glob[IN_R] = first, second
+            want = (clone(first), clone(second))
+            options['maxStatements'] = statement_budget(want[0], want[1])
+            try:
+                raw = runner.runtime.execute_script(runner.script(SCRIPT_CALL_G), options)
+                out.append(want + (canon(raw),))
+                return raw
+            except Exception as exc:  # pylint: disable=broad-except
+                out.append(want + (runner._error(exc),))  # pylint: disable=protected-access
+                return None
+
+        def use():
+            for _, _, value in self.sweep(first, second, glob, options, self.learn()):
+                _host_edit(value, how, keep)
+            # functions that work in place (arraySort, arrayPush, arrayExtend ...) changed the inputs themselves: put their lines back
+            if isinstance(first, list):
+                first[:] = left
+            if isinstance(second, list):
+                second[:] = right
+
+        use()
+        raw = call()
+        if raw is not None:
+            _host_edit(raw, how, keep)
+        use()
+        call()
+        # the caller edits the arrays it passes again (same objects, new lines) / passes longer texts
+        if isinstance(first, list):
+            first.append('zz')
+            if len(first) > 1:
+                first[0] = 'changed'
+            left = list(first)
+        else:
+            first = left = first + '\nzz'
+        if isinstance(second, list):
+            if second:
+                second.pop()
+            second.insert(0, 'zz')
+            right = list(second)
+        else:
+            second = right = 'zz\r\n' + second
+        keep.update((id(first), id(second)))
+        use()
+        call()
+        return out
+
+
+def _shape_class(shape):
+    """the shape name without part / regex numbers (p0,lf -> p,lf ; re2,p1 -> re,p)"""
+    return re.sub(r'\d+', '', shape) if shape[:1] in 'pr' else shape
+
+
+PRIOR_PROBES = [
+    ('alpha\nbeta\ngamma\n', 'alpha\nbeta2\ngamma\n'), ('a\nb\n', 'a\nb\n'), (['a\nb\n', 'c'], 'a\nb\n\nc'), ('a\r\nb', ['a', 'b']),
+    (['x', 'y', 'z'], ['x', 'z']), ('one', 'one'), (['p\n', 'q\n'], ['p\n', 'q\n']), ('', 'a\n'), (['b', 'a', 'c'], ['a', 'b', 'c']),
+]
+
+
+def stream_prior_use(ctx, runner):
+    st = ctx.stream('diff-prior-use', 'THE CALLER HAS USED THE LIBRARY ON THE SAME VALUES BEFORE, in the same run and process: (a) caller scripts = '
+                    '%d ways of splitting every text / array part into lines (an equal regex made separately, the library\'s own regex object, LF '
+                    'only, stringSplit, through JSON) x %d ways of copying an array x %d in-place edits of what came back (pop, shift, push, sort, '
+                    'set, delete, extend, pop a trailing empty line, clear), then diffLines, then the same edits on the blocks of the result and '
+                    'the uses again, then diffLines again; (b) a host-level sweep: every library function of the working tree except system* '
+                    '(%d functions) is handed the very objects given to diffLines afterwards, in every argument shape (alone, with the other '
+                    'input, with LF, with indexes, as an object member, part by part, with %d line-splitting regexes), every container that '
+                    'comes back is edited in place (7 edits, containers inside too), the inputs get their lines back, then diffLines; the '
+                    'result is edited, the sweep repeated, diffLines again; then the input ARRAYS are edited (same objects, other lines; texts '
+                    'replaced) and diffLines once more. Every call: reconstruction oracle against the lines the inputs have at that moment, '
+                    'the model, and the result a fresh interpreter process gives for the same inputs. Non-trivial = the line lists differ'
+                    % (len(PRIOR_SPLITS), len(PRIOR_COPIES), len(PRIOR_EDITS), len([n for n in fw.impl()['library'].SCRIPT_FUNCTIONS
+                                                                                       if not n.startswith(PRIOR_DENY)]), 5))
+    rng = ctx.rng('diff-prior-use')
+    checked = []            # (input for the witness, left, right, result)
+    # ---- (a) caller scripts
+    combos = [(sp, cp, ed) for sp in PRIOR_SPLITS for ed in PRIOR_EDITS for cp in PRIOR_COPIES]
+    if ctx.quick:           # every split x every edit; the copies rotate
+        combos = [(sp, list(PRIOR_COPIES)[(i + j) % len(PRIOR_COPIES)], ed) for i, sp in enumerate(PRIOR_SPLITS) for j, ed in enumerate(PRIOR_EDITS)]
+    for k, (split, copy, edit) in enumerate(combos):
+        text = prior_use_script(split, copy, edit)
+        picks = [PRIOR_PROBES[(k + j * 4) % len(PRIOR_PROBES)] for j in range(ctx.scale(2, len(PRIOR_PROBES)))] + \
+                [small_pair(rng) for _ in range(ctx.scale(1, 10))]
+        for left, right in picks:
+            res = run_prior_script(runner, text, left, right)
+            for which, impl in enumerate(res):
+                inp = {'left': left, 'right': right, 'mode': 'prior-use', 'kind': 'script', 'script': text, 'call': which}
+                checked.append((inp, left, right, impl, ['kind=script', 'split=' + split, 'copy=' + copy, 'edit=' + edit]))
+    # ---- (b) host-level sweep
+    sweeper = PriorUse(runner)
+    for k in range(ctx.scale(60, 1200)):
+        left, right = PRIOR_PROBES[k % len(PRIOR_PROBES)] if k % 3 == 0 else small_pair(rng)
+        how = HOST_EDITS[k % len(HOST_EDITS)]
+        for which, (now_l, now_r, impl) in enumerate(sweeper.run(left, right, how)):
+            inp = {'left': now_l, 'right': now_r, 'mode': 'prior-use', 'kind': 'sweep', 'first': [left, right], 'edit': how, 'call': which}
+            checked.append((inp, now_l, now_r, impl, ['kind=sweep', 'edit=' + how, 'call=%d' % which]))
+    ctx.notes.append('diff-prior-use: %d (function, argument shape) pairs of the library return a container' % len(sweeper.learn()))
+    models = models_for(ctx, [(l, r) for _, l, r, _, _ in checked])
+    uniq = {}
+    for _, left, right, _, _ in checked:
+        uniq.setdefault(_pair_key(left, right), (left, right))
+    fresh = dict(zip(uniq, fresh_run(list(uniq.values()))))
+    for inp, left, right, impl, tags in checked:
+        if impl is SKIPPED:
+            st.case([inp.get('script', inp.get('first')), inp.get('edit'), inp['call'], left, right], nontrivial=False, tags=['skipped'])
+            continue
+        st.case([inp.get('script', inp.get('first')), inp.get('edit'), inp['call'], left, right], nontrivial=ref_lines(left) != ref_lines(right),
+                tags=tags + [blocks_tag(impl)])
+        report(ctx, 'diff-prior-use', inp, left, right, impl, models.get(_pair_key(left, right)))
+        ctx.compare('diff-prior-use', dict(inp, mode='prior-use-vs-fresh-process'), impl, fresh[_pair_key(left, right)])
+    st.exhaustive = False
+
+
+def run_prior_script(runner, text, left, right):
+    """-> [first result, second result] of a prior_use_script caller (canonical)"""
+    if runner.overruns >= MAX_OVERRUNS:
+        return [SKIPPED, SKIPPED]
+    n = len(ref_lines(left)) + len(ref_lines(right))
+    try:
+        res = runner.runtime.execute_script(runner.script(text), runner._options(  # pylint: disable=protected-access
+            {IN_L: clone(left), IN_R: clone(right)}, 3 * statement_budget(left, right) + 2000 + 400 * n))
+        if not isinstance(res, list) or len(res) != 2:
+            return [{'error': 'caller returned ' + type(res).__name__}] * 2
+        return [canon(res[0]), canon(res[1])]
+    except Exception as exc:  # pylint: disable=broad-except
+        return [runner._error(exc)] * 2  # pylint: disable=protected-access
+
+
+# ---- host values as inputs and host ways of running ------------------------------------------------------------------------------
+
+INPUT_KINDS = ('plain', 'strsub', 'enum', 'listsub', 'listsub-strsub', 'lines-strsub', 'alias')
+OPTION_KINDS = ('plain', 'dictsub-globals', 'dictsub-options', 'debug-log', 'float-limit', 'intsub-limit', 'no-system-prefix')
+
+
+def host_value(kind, value):
+    """the input `value` (a str or a list of str) as the host object `kind`"""
+    if kind in ('plain', 'alias'):
+        return clone(value)
+    if isinstance(value, str):
+        if kind in ('strsub', 'listsub-strsub', 'lines-strsub'):
+            return HostStr(value)
+        if kind == 'enum':
+            return enum.Enum('HostText', {'TEXT': value}, type=str).TEXT
+        return value
+    if kind == 'listsub':
+        return HostList(value)
+    if kind == 'listsub-strsub':
+        return HostList(HostStr(x) for x in value)
+    if kind in ('lines-strsub', 'strsub'):
+        return [HostStr(x) for x in value]
+    if kind == 'enum':
+        return [enum.Enum('HostLine', {'LINE': x}, type=str).LINE for x in value]
+    return list(value)
+
+
+def run_boundary(runner, left, right, in_kind, opt_kind, via):
+    """one isolated run with host-made input objects and host-made options"""
+    if runner.overruns >= MAX_OVERRUNS:
+        return SKIPPED
+    budget = statement_budget(left, right) + 100
+    hl = host_value(in_kind, left)
+    hr = hl if in_kind == 'alias' and left == right else host_value(in_kind, right)
+    glob = HostDict() if opt_kind == 'dictsub-globals' else {}
+    options = runner._options(glob, budget)  # pylint: disable=protected-access
+    log = []
+    if opt_kind == 'dictsub-options':
+        options = HostDict(options)
+    elif opt_kind == 'debug-log':
+        options['debug'] = True
+        options['logFn'] = log.append
+    elif opt_kind == 'float-limit':
+        options['maxStatements'] = float(budget)
+    elif opt_kind == 'intsub-limit':
+        options['maxStatements'] = HostInt(budget)
+    elif opt_kind == 'no-system-prefix':        # the host serves `diff.bare` itself, the system prefix is not configured
+        del options['systemPrefix']
+        bare = runner.bare
+        options['fetchFn'] = lambda request: bare._fetch_include({'url': bare._FETCH_INCLUDE_PREFIX + os.path.basename(request['url'])})  # pylint: disable=protected-access
+    try:
+        rt = runner.runtime
+        if via == 'script':
+            glob[IN_L], glob[IN_R] = hl, hr
+            return canon(rt.execute_script(runner.script(SCRIPT_FULL_G), options))
+        rt.execute_script(runner.script(SCRIPT_INCLUDE), options)
+        options['statementCount'] = 0
+        if via == 'direct':
+            return canon(glob['diffLines']([hl, hr], options))
+        if via == 'direct-extra':               # more arguments than parameters
+            return canon(glob['diffLines']([hl, hr, 'extra', None], options))
+        if via == 'eval-locals':
+            return canon(rt.evaluate_expression(runner.parser.parse_expression('diffLines(a, b)'), options, {'a': hl, 'b': hr}))
+        glob[IN_L], glob[IN_R] = hl, hr
+        return canon(rt.evaluate_expression(runner.parser.parse_expression(EXPR_CALL_G), options, None, via == 'eval'))
+    except Exception as exc:  # pylint: disable=broad-except
+        return runner._error(exc)  # pylint: disable=protected-access
+
+
+BOUNDARY_VIAS = ('script', 'direct', 'direct-extra', 'eval', 'eval-nobuiltins', 'eval-locals')
+
+_FRESH_RUN_SRC = r"""
+import json, sys
+sys.path.insert(0, sys.argv[1])
+from bare_script import parser, runtime, bare
+script = parser.parse_script(sys.argv[2])
+out = []
+for left, right, limit in json.load(sys.stdin):
+    try:
+        res = runtime.execute_script(script, {'fetchFn': bare._fetch_include, 'systemPrefix': bare._FETCH_INCLUDE_PREFIX,
+                                              'globals': {sys.argv[3]: left, sys.argv[4]: right}, 'maxStatements': limit})
+        out.append(['ok', res])
+    except Exception as exc:
+        out.append(['err', type(exc).__name__ + ': ' + str(exc)[:120]])
+json.dump(out, sys.stdout, default=str)
+"""
+
+
+def fresh_run(pairs):
+    """the pairs run IN ORDER by a fresh interpreter process (no state of this process: no module caches, no earlier runs)"""
+    work = [[l, r, statement_budget(l, r) + 100] for l, r in pairs]
+    try:
+        res = subprocess.run([sys.executable, '-c', _FRESH_RUN_SRC, fw.REPO_SRC, SCRIPT_FULL_G, IN_L, IN_R], input=json.dumps(work),
+                             capture_output=True, text=True, timeout=300, check=False)
+    except subprocess.TimeoutExpired:
+        return [{'error': 'fresh process did not finish in 300 s'}] * len(pairs)
+    if res.returncode != 0:
+        return [{'error': 'fresh process failed: ' + res.stderr[-200:]}] * len(pairs)
+    return [canon(x[1]) if x[0] == 'ok' else {'error': x[1]} for x in json.loads(res.stdout)]
+
+
+def stream_boundary(ctx, runner):
+    st = ctx.stream('diff-boundary', 'HOST VALUES AND HOST WAYS OF RUNNING: the inputs as host objects (a str subclass, str-enum members, a list '
+                    'subclass, lists of str-subclass lines, one array object passed on both sides) x host options (globals / options that are '
+                    'dict subclasses, debug with a collecting logFn, maxStatements as a float / an int subclass, the shipped file served by the '
+                    'host\'s own fetcher without a system prefix) x the way the function is reached (a script, the function value called directly '
+                    'as a host or a library callback does - also with surplus arguments -, evaluate_expression with builtins on / off and with '
+                    'the inputs as locals); and a batch run in a fresh interpreter process (must satisfy the oracle and equal the in-process '
+                    'result). The model has no host objects: it gets the same lines as plain strings. Non-trivial = the line lists differ')
+    rng = ctx.rng('diff-boundary')
+    work = []
+    fixed = GLOBAL_PROBES + HOST_PROBES
+    combos = [(i, o, v) for i in INPUT_KINDS for o in OPTION_KINDS for v in BOUNDARY_VIAS]
+    for k, (in_kind, opt_kind, via) in enumerate(combos):
+        picks = [fixed[(k * 7 + j * 3) % len(fixed)] for j in range(ctx.scale(1, 6))] + [small_pair(rng) for _ in range(ctx.scale(1, 30))]
+        for left, right in picks:
+            if in_kind == 'alias' and rng.random() < 0.7:
+                right = clone(left)
+            work.append((in_kind, opt_kind, via, left, right))
+    fresh_pairs = fixed + [small_pair(rng) for _ in range(ctx.scale(80, 3000))]
+    models = models_for(ctx, [(l, r) for _, _, _, l, r in work] + fresh_pairs)
+    for in_kind, opt_kind, via, left, right in work:
+        impl = run_boundary(runner, left, right, in_kind, opt_kind, via)
+        if impl is SKIPPED:
+            st.case([in_kind, opt_kind, via, left, right], nontrivial=False, tags=['skipped'])
+            continue
+        st.case([in_kind, opt_kind, via, left, right], nontrivial=ref_lines(left) != ref_lines(right),
+                tags=['input=' + in_kind, 'options=' + opt_kind, 'via=' + via, blocks_tag(impl)])
+        report(ctx, 'diff-boundary', {'left': left, 'right': right, 'mode': 'boundary', 'input': in_kind, 'options': opt_kind, 'via': via},
+               left, right, impl, models.get(_pair_key(left, right)))
+    results = fresh_run(fresh_pairs)
+    for (left, right), impl in zip(fresh_pairs, results):
+        st.case(['fresh-process', left, right], nontrivial=ref_lines(left) != ref_lines(right), tags=['via=fresh-process', blocks_tag(impl)])
+        inp = {'left': left, 'right': right, 'mode': 'fresh-process'}
+        report(ctx, 'diff-boundary', inp, left, right, impl, models.get(_pair_key(left, right)))
+        here = runner.polluted(left, right, [], 'null', 'host')
+        if here is not SKIPPED:
+            ctx.compare('diff-boundary', dict(inp, mode='fresh-process-vs-this-process'), impl, here)
+    st.exhaustive = False
+
+
 def include_facts():
     """What the implementation says about each shipped include script. -> [{name, sha256, parses, statements, validates, lint}]"""
     m = fw.impl()
@@ -948,6 +1963,11 @@ def streams(ctx):
     stream_inputs(ctx, runner)
     stream_twins(ctx, runner)
     stream_hosts(ctx, runner)
+    # a runner each: a variant that overruns its statement budget under one kind of host configuration must not switch the others off
+    stream_globals(ctx, HostRunner())
+    stream_history(ctx, HostRunner())
+    stream_boundary(ctx, HostRunner())
+    stream_prior_use(ctx, HostRunner())
     stream_cli_path(ctx, runner, ctx.scale(3, 4))
     cpus = os.cpu_count() or 1
     workers = 1 if ctx.quick else int(os.environ.get('VERIF_C20_WORKERS', max(1, min(8, cpus // 2))))
@@ -1027,11 +2047,42 @@ def search(ctx):
             return
 
 
+def replay_host(inp):
+    """the witnesses of the diff-globals / diff-history / diff-boundary streams (whatever the oracle name: the input says how to run)"""
+    runner = HostRunner()
+    left, right, mode = inp['left'], inp['right'], inp['mode']
+    if mode == 'globals':
+        if inp['when'] == 'cli':
+            impl = runner.cli(left, right, inp['names'], inp['value'])
+        else:
+            impl = runner.polluted(left, right, inp['names'], inp['value'], inp['when'])
+    elif mode == 'globals-sequence':
+        impl = runner.polluted_sequence([tuple(c) for c in inp['calls']], inp['names'])[-1]
+    elif mode == 'history':
+        impl = run_history(runner, inp['steps'])[-1]
+    elif mode == 'prior-use':
+        if inp['kind'] == 'script':
+            impl = run_prior_script(runner, inp['script'], left, right)[inp['call']]
+        else:
+            res = PriorUse(runner).run(inp['first'][0], inp['first'][1], inp['edit'])
+            if inp['call'] >= len(res):
+                return True
+            left, right, impl = res[inp['call']]
+    elif mode == 'boundary':
+        impl = run_boundary(runner, left, right, inp['input'], inp['options'], inp['via'])
+    else:
+        impl = fresh_run([(left, right)])[0]
+    return impl is not SKIPPED and impl is not None and oracle(left, right, impl) is not None
+
+
 def replay(witness):
     inp = witness['input']
     if 'include' in inp:
         rows = [r for r in include_facts() if r['name'] == inp['include']]
         return not rows or include_bad(rows[0])
+    mode = inp.get('mode')
+    if mode in ('globals', 'globals-sequence', 'history', 'boundary', 'fresh-process', 'prior-use'):
+        return replay_host(inp)
     runner = Runner()
     if inp.get('mode') == 'host':
         return oracle(inp['left'], inp['right'], runner.host(inp['left'], inp['right'], inp['script'])) is not None
@@ -1060,6 +2111,12 @@ LEVEL_NOTE = ('Proof level holds for the parsed program on the machine model. As
               'pairs up to 40 lines, LF/CRLF texts and chunked arrays, twin lines (different strings equal under a Unicode normalisation form, '
               'a case mapping, invisible affixes, a numeric reading or a length limit; words from all 17 planes) and 165 caller scripts '
               '(include form x place of the include statement x way of calling); the reconstruction oracle runs on every implementation output. '
+              'Host side (no model of host objects / globals / histories in Lean: implementation-side oracle, the model compared on the same lines): '
+              'diff-globals (host globals named like every name the working tree\'s diff.bare uses, every value type, set by the host / an earlier '
+              'script / the CLI multi-script mode / the caller), diff-history (fault-then-continue histories on one re-used options + globals '
+              'object), diff-boundary (str / list / dict / int subclasses and str-enum members as inputs and options, the function reached by a script, '
+              'directly, through evaluate_expression; a fresh interpreter process) and diff-prior-use (the caller used every library function on the '
+              'same values before and edited what it got, the results and the input arrays in place). '
               'If diff.bare changes so that its parsed model differs, BareProofs.C20Prog no longer compiles and these streams + the search are what '
               'produce the concrete failing input. The include facts are those reported by parse_script/validate_script/lint_script of the working '
               'tree (no Lean model of the linter).')
